@@ -50,11 +50,11 @@ Print Assumptions c05_iterate_dense_exact.
    then the CSR iterator), for every row chunk size c >= 1, every elements_at_a_time E
    and load chunk sizes L, Lc >= 1 of the conversion: the blocks are chained from 0 to
    n_rows and are the row ranges of M = transpose of the column-major dense view.
-   (idx m <> []: a CSC matrix without any stored value makes the conversion raise -
-   finding F2, c13_transpose_no_value_rejects) *)
+   A CSC matrix without any stored value is included (it used to make the conversion
+   raise - the former finding F2; c13_transpose_empty_slice): its blocks are all-zero. *)
 Theorem c05_iterate_csc_exact : forall m n_rows n_cols c E L Lc,
   wf_comp m n_rows -> length (ptr m) = S n_cols -> length (dat m) = length (idx m) ->
-  no_dup_minor m -> idx m <> [] -> 1 <= c -> 1 <= L -> 1 <= Lc ->
+  no_dup_minor m -> 1 <= c -> 1 <= L -> 1 <= Lc ->
   let M := map (fun r => map (fun j => cell m j r) (seq 0 n_cols)) (seq 0 n_rows) in
   exists bl, iterate_csc m n_rows n_cols c E L Lc = Ok bl /\
     chained 0 (map fst bl) n_rows /\
@@ -70,7 +70,7 @@ Theorem c05_encodings_agree : forall (d : dense) mr mc nr nc c1 c2 c3 E L Lc,
   length d = nr ->
   wf_csr mr nr nc -> no_dup_minor mr -> dense_of mr nr nc = d ->
   wf_comp mc nr -> length (ptr mc) = S nc -> length (dat mc) = length (idx mc) ->
-  no_dup_minor mc -> idx mc <> [] ->
+  no_dup_minor mc ->
   map (fun r => map (fun j => cell mc j r) (seq 0 nc)) (seq 0 nr) = d ->
   1 <= c1 -> 1 <= c2 -> 1 <= c3 -> 1 <= L -> 1 <= Lc ->
   exists b1 b2 b3,
@@ -115,3 +115,19 @@ Example c05_example_csc :
   iterate_csc c05_ex_csc 3 4 2 1 1 1 =
   Ok [(0, 2, [[0; 1; 2; 3]; [0; 0; 0; 0]]%Z); (2, 3, [[8; 9; 0; 11]]%Z)].
 Proof. vm_compute. reflexivity. Qed.
+(* a 2 x 3 CSC matrix without any stored value satisfies the hypotheses of
+   c05_iterate_csc_exact and is read as all-zero rows *)
+Definition c05_zero_csc : comp := {| ptr := [0; 0; 0; 0]; idx := []; dat := [] |}.
+Example c05_example_zero_csc :
+  wf_comp c05_zero_csc 2 /\ length (ptr c05_zero_csc) = 4 /\
+  length (dat c05_zero_csc) = length (idx c05_zero_csc) /\ no_dup_minor c05_zero_csc /\
+  iterate_csc c05_zero_csc 2 3 1 1 1 1 = Ok [(0, 1, [[0; 0; 0]]%Z); (1, 2, [[0; 0; 0]]%Z)].
+Proof.
+  split; [|split; [reflexivity | split; [reflexivity | split]]].
+  - unfold wf_comp, c05_zero_csc; cbn [ptr idx dat hd last length mono].
+    split; [reflexivity | split; [reflexivity | split]]; [lia | apply Forall_nil].
+  - intros j Hj. unfold c05_zero_csc in *; cbn [ptr idx dat length] in *.
+    assert (D : j = 0 \/ j = 1 \/ j = 2) by lia.
+    destruct D as [ -> | [ -> | -> ] ]; vm_compute; apply NoDup_nil.
+  - vm_compute. reflexivity.
+Qed.
